@@ -128,8 +128,18 @@ class DBSpace(data_algebra.data_space.DataSpace):
         assert isinstance(allow_overwrite, bool)
         if key in self.description_map.keys():
             assert allow_overwrite
+            # the pipeline may read the table it replaces, and it may fail:
+            # build the result aside, and only then replace the old table
+            staging_key = self._new_temp_key()
+            self.db_handle.create_table(table_name=staging_key, q=ops)
             self.remove(key)
-        descr = self.db_handle.create_table(table_name=key, q=ops)
+            staging_name = self.db_handle.db_model.quote_table_name(staging_key)
+            descr = self.db_handle.create_table(
+                table_name=key, q=f"SELECT * FROM {staging_name}"
+            )
+            self.db_handle.drop_table(staging_key)
+        else:
+            descr = self.db_handle.create_table(table_name=key, q=ops)
         self.description_map[key] = descr
         self.eligable_for_auto_drop_list.add(key)
         return descr
